@@ -1456,3 +1456,103 @@ def _factory_independent_tail(make, view, mutate, what, same, first, a, last, v_
         return (f"{what}: a call made AFTER an earlier result was modified through its public setters / attributes no longer returns "
                 f"the documented value: {_short(v_first)} before, {_short(v_new)} now")
     return None
+
+
+# --------------------------------------------------------------------------------------------
+# probes for EQUALITY that looks at more than the fields (a remembered checksum, a length cache): "decode(encode x) == x"
+# is about x in whatever state the application holds it - never encoded, encoded before, changed through its setters
+# after it was encoded - and about both operand orders
+# --------------------------------------------------------------------------------------------
+def _eq_outcomes(x: Any, y: Any) -> List[bool]:
+    return [bool(x == y), bool(y == x), bool(x != y), bool(y != x)]
+
+
+def equal_in_every_state(decode: Callable[[], Any], make: Callable[[], Any], same: Iterable, different: Iterable = (),
+                         what: str = "packet", decoded: str = "the decoded object", both_sides: bool = True) -> Optional[str]:
+    """`==` / `!=` between objects of one class are functions of the field values and of nothing else an object remembers.
+    Self-contained sequence on the real code, for every candidate:
+        d = decode()                      (a new object decoded from the encoded octets; whatever it remembers comes off the wire)
+        o = <candidate>                   (built by the entry of `same` / `different`)
+        p = make()                        (built directly from the field values; nothing was ever computed on it)
+      same:       d == o, o == d, not d != o, not o != d - and (both_sides) the same four between p and o
+      different:  the opposite four between d and o and between p and o
+    same      = [(label, build() -> object holding the SAME field values, reached some way: make() then pack() / calc_crc()
+                  / to_space_packet(), built with other values, packed (so that whatever it remembers is out of date) and then
+                  changed to the final values through the documented setters, decoded a second time ...)]
+    different = [(label, build() -> object that differs from make() in exactly one field)]
+    The labels are the call sequences (they are quoted in the finding). A candidate whose build() raises a documented
+    refusal (ValueError family: value out of range at the edge of the domain) is skipped.
+    Returns None or one sentence."""
+    def candidates(items):
+        for label, build in items:
+            try:
+                yield label, build()
+            except (SelfCheckFailure, InfraError):
+                raise
+            except ValueError:
+                continue
+
+    for want_equal, items in ((True, same), (False, different)):
+        want = [True, True, False, False] if want_equal else [False, False, True, True]
+        for label, o in candidates(items):
+            sides = [(decoded, decode)]
+            if both_sides:
+                sides.append((f"a never-encoded object with the same field values [{what}]", make))
+            for side, get in sides:
+                other = get()
+                got = _eq_outcomes(other, o)
+                if got != want:
+                    names = ["x == o", "o == x", "x != o", "o != x"]
+                    wrong = ", ".join(f"{n} is {g}" for n, g, w in zip(names, got, want) if g != w)
+                    return (f"{what}: with x = {side} and o = {label}: {wrong} - o holds "
+                            f"{'exactly the same field values as x' if want_equal else 'a different value in exactly one field'}; "
+                            f"equality must be a function of the field values only (not of what an object remembers from an "
+                            f"earlier pack / decode) and symmetric")
+    return None
+
+
+# --------------------------------------------------------------------------------------------
+# probes for VIEWS / CONVERSIONS that were taken BEFORE the object changed and are looked at AFTER: what a conversion method
+# returned (a generic packet made out of a specific one, a header made out of a packet) is a value of its own
+# --------------------------------------------------------------------------------------------
+def held_across_change(obj: Any, holders: Iterable, change: Callable[[Any], Any], what: str) -> Optional[str]:
+    """Self-contained sequence on the real code:
+        for every (name, take, observe, valid) of `holders`:  h = take(obj); before = observe(h)
+        change(obj)            - through the documented setters / public attributes; exceptions propagate
+        then for every holder: observe(h) == before (the thing taken earlier did not follow the object and did not turn into a
+                               mixture of old and new), and valid(before) / valid(after) is None (an optional validity check of
+                               the observed value itself, e.g. "is a well-formed packet with a matching checksum")
+    `observe` returns plain values (ints, hex strings of pack()). A holder whose take() raises is left out.
+    Returns None or one sentence."""
+    held = []
+    for name, take, observe, valid in holders:
+        try:
+            h = take(obj)
+            before = observe(h)
+        except (SelfCheckFailure, InfraError):
+            raise
+        except Exception:  # noqa
+            continue
+        if valid is not None:
+            bad = valid(before)
+            if bad:
+                return f"{what}: {name} taken from the object: {bad}"
+        held.append((name, h, observe, valid, before))
+    change(obj)
+    for name, h, observe, valid, before in held:
+        try:
+            after = observe(h)
+        except (SelfCheckFailure, InfraError):
+            raise
+        except Exception as e:  # noqa
+            return (f"{what}: {name} taken BEFORE the object was changed through its documented setters can no longer be inspected "
+                    f"AFTER the change ({type(e).__name__}: {str(e)[:80]})")
+        if after != before:
+            tail = ""
+            if valid is not None:
+                bad = valid(after)
+                tail = f" ({bad})" if bad else ""
+            return (f"{what}: {name} taken BEFORE the object was changed through its documented setters shows something else "
+                    f"AFTER the change: {_short(before)} became {_short(after)}{tail} - what a conversion returned is a value of "
+                    f"its own and does not follow (parts of) the object it was made from")
+    return None
